@@ -200,6 +200,10 @@ class SharedMemoryFileBufferedCollection(FileBufferedCollection):
                 if not type(self)._buffer[self._filename]["modified"]:
                     type(self)._buffer[self._filename]["modified"] = True
                     type(self)._CURRENT_BUFFER_SIZE += 1
+                # Operations that save without loading first (clear, reset) may
+                # be performed by a collection that does not share the buffered
+                # data yet, so the data being saved must become the shared data.
+                type(self)._buffer[self._filename]["contents"] = self._data
             else:
                 self._initialize_data_in_buffer(modified=True)
                 type(self)._CURRENT_BUFFER_SIZE += 1
